@@ -580,10 +580,11 @@ class ConcurrentVector {
       e->~T();
       return e;
     }
-    ++e;
     auto it = begin();
     it += (pos - it);
-    return std::move(pos + 1, const_iterator(e), it);
+    std::move(pos + 1, const_iterator(e) + 1, it);
+    e->~T();
+    return it;
   }
 
   /**
@@ -605,15 +606,13 @@ class ConcurrentVector {
 
     auto e_it = std::move(last, cend(), it);
 
-    if (e_it < last) {
-      // remove any values that were not already moved into
-      do {
-        --last;
-        last->~T();
-      } while (e_it != last);
+    // destroy the vacated tail [e_it, end())
+    for (auto d = end(); d != e_it;) {
+      --d;
+      d->~T();
     }
     size_.fetch_sub(len, std::memory_order_relaxed);
-    return e_it;
+    return it;
   }
 
   /**
